@@ -261,6 +261,72 @@ def seen_lookup(seen, gitdir, spelling):
     return seen[oid]
 
 
+def rerender_stage(chk, b, tier):
+    """Library use: one scan result rendered several times (a summary, then details; the same report again; another name
+    style). Every rendering on its own must obey the footnote discipline, and renderings with equal parameters are equal."""
+    import base64
+    from .. import oracle as O
+    drv = b.apidrv()
+    rng = random.Random("C19r|%d" % R.SEED)
+    ncases = 40 if tier == "quick" else 2000
+    cases = []
+    hexd = lambda: "%040x" % rng.getrandbits(160)
+    b64 = lambda x: base64.b64encode(x).decode()
+    for i in range(ncases):
+        c, t, sdir, blob, tag = hexd(), hexd(), hexd(), hexd(), hexd()
+        fields = {k: rng.choice([0, 1, 7, 1500, 10 ** 6, O.CAPS[k]]) for k in O.CAPS if k != "reference_count"}
+        fields["reference_count"] = 3
+        ops = []
+        targets = {"max_blob_size_blob": (blob, "blob"), "max_tree_entries_tree": (sdir, "tree"), "max_commit": (c, "commit"),
+                   "max_parent_count_commit": (c, "commit"), "max_path_depth_tree": (t, "tree"), "max_path_length_tree": (t, "tree"),
+                   "max_expanded_blob_size_tree": (sdir, "tree"), "max_tag_depth_tag": (tag, "tag"),
+                   "max_expanded_tree_count_tree": (hexd(), "tree")}
+        for key, (oid, typ) in targets.items():
+            if rng.random() < 0.85:
+                ops.append({"op": "req", "oid": oid, "type": typ, "key": key})
+        fname = rng.choice([b"plain.txt", b"with space", b"q\"uote", b"tab\there", b"caf\xc3\xa9", b"\xff\xfe", b"x" * 90])
+        ops += [{"op": "tree", "oid": t, "name": b64(b"dir"), "child": sdir}, {"op": "tree", "oid": sdir, "name": b64(fname), "child": blob},
+                {"op": "commit", "oid": c, "tree": t}, {"op": "name", "name": b64(b"refs/heads/main"), "oid": c},
+                {"op": "name", "name": b64(b"refs/tags/v1"), "oid": tag}]
+        groups = [{"symbol": "", "name": "Refs"}, {"symbol": "branches", "name": "Branches"}, {"symbol": "tags", "name": "Tags"}]
+        cases.append({"id": i, "fields": fields, "groups": groups, "group_counts": {"": 3, "branches": 2, "tags": 1}, "resolver_ops": ops,
+                      "thresholds": rng.choice([["0", "0.0", "1", "0.00", "-1"], ["1", "0", "1.0", "0.0"], ["30", "0", "0.0"]]),
+                      "names": rng.choice([["full"], ["hash"], ["full"]])})
+    obs, rc, err = R.drv(drv, "output", cases)
+    if len(obs) != len(cases):
+        chk.inconc("output driver returned %d of %d: %r" % (len(obs), len(cases), err[-200:]))
+    nren = 0
+    for o in obs:
+        cse = cases[o["id"]]
+        if "panic" in o:
+            chk.violation("C19/re-rendering/panic", {"panic": o["panic"]})
+            continue
+        rd = o["renders"][0]
+        tabs = {}
+        for ts in cse["thresholds"]:
+            if "panic:" + ts in rd:
+                chk.violation("C19/re-rendering/panic", {"panic": rd["panic:" + ts], "threshold": ts})
+                continue
+            if "table:" + ts not in rd:
+                continue
+            tb = base64.b64decode(rd["table:" + ts])
+            tabs[ts] = tb
+            nren += 1
+            chk.count()
+            tab = P.parse_table(tb, lenient=True)
+            probs = P.footnote_discipline(tab)
+            if probs:
+                chk.violation("C19/re-rendering/table-footnote-discipline", {"threshold": ts, "rendering_number": cse["thresholds"].index(ts) + 1,
+                                                                            "of": cse["thresholds"], "problems": probs[:3],
+                                                                            "table_tail": tb[-300:].decode("utf-8", "replace")})
+            if any(r.citation is not None for r in tab.rows):
+                chk.nontrivial(("rerender", o["id"], ts))
+        for a_, b_ in (("0", "0.0"), ("0", "0.00"), ("1", "1.0")):
+            if a_ in tabs and b_ in tabs and tabs[a_] != tabs[b_]:
+                chk.violation("C19/re-rendering/equal-parameters-different-table", {"thresholds": [a_, b_], "order": cse["thresholds"]})
+    chk.cov["re_renderings_judged"] = nren
+
+
 def run(chk, b, tier):
     n = 120 if tier == "quick" else 10000
     sz = b.sizer()
@@ -284,8 +350,11 @@ def run(chk, b, tier):
             profs[r["sample"]["profile"]] = profs.get(r["sample"]["profile"], 0) + 1
             chk.sample(r["sample"], limit=5)
     chk.cov["cases_per_name_profile"] = profs
+    rerender_stage(chk, b, tier)
     if chk.cov.get("generator_discards", 0) > n // 3:
         chk.inconc("too many generator discards")
+    from ._camp import generic_fault_sweep
+    generic_fault_sweep(chk, b, "C19", [['-v', '--no-progress'], ['--json', '--json-version=2', '--no-progress']])
     chk.cov["rule"] = ("repositories with hostile file names (spaces, quotes/backslashes, control characters incl. LF, non-UTF-8, "
                        "rev-parse syntax, very long), reference names with every byte class git accepts (incl. non-UTF-8), "
                        "refgroup symbols and display names of arbitrary bytes, ROOT arguments spelled with such names; several "
